@@ -44,6 +44,17 @@ class ValueConstraintViolatedError(ConstraintViolatedError):
         self.value = value
 
 
+class ParameterEncryptionMismatchError(ConstraintViolatedError):
+    def __init__(self, path, expected, found, **kwargs):
+        super().__init__(
+            f"Response was decoded with parameter_encryption = {expected}, but the sessions in {path} say sessionAttributes.encrypt = {found}.",
+            **kwargs,
+        )
+        self.path = path
+        self.expected = expected
+        self.found = found
+
+
 class SizeConstraintViolatedError(ConstraintViolatedError):
     def __init__(self, message, constraint, **kwargs):
         super().__init__(message, **kwargs)
